@@ -39,9 +39,10 @@ def run(ctx, replay=None):
         r = rp.get("replay") or {}
         case = r.get("case")
         if not case:
-            # a bit-flip finding: re-run the flips of that seed
+            # a bit-flip finding: re-run the flips of that seed up to the failing one
+            n = max(int(r.get("flip", 0)) + 1, 3000)
             ctx.go_test("c05", run="TestReplay$", env={"VERIF_CASES": ctx.write_ndjson("cases.ndjson", []),
-                                                        "VERIF_FLIPS": ctx.pick(3000, 60000)}, timeout=3000)
+                                                        "VERIF_FLIPS": n}, timeout=3000)
             return
         if "idx" in r:
             case = dict(case, idx=r["idx"])
@@ -49,7 +50,8 @@ def run(ctx, replay=None):
         ctx.go_test("c05", run="TestReplay$", env={"VERIF_CASES": path}, timeout=3000)
         return
     # 1. the decision table: TLC enumerates every case, checks the laws, exports the cases
-    r = ctx.tlc("codec", "MCSigVerify", ctx.pick("SigVerify.cfg", "SigVerifyFull.cfg"), workers=1, timeout=3000)
+    r = ctx.tlc("codec", "MCSigVerify", ctx.pick("SigVerify.cfg", "SigVerifyFull.cfg"), workers=1, timeout=3000,
+                java_opts=["-XX:ParallelGCThreads=2"])
     cases = r.records.get("CASE", [])
     if not cases or len(cases) != r.distinct:
         raise Infra("TLC exported %d cases for %d states" % (len(cases), r.distinct))
